@@ -23,9 +23,27 @@ theorem tiny_backend_exact (rows : List Record) (types : List Nat) (f : Option F
     (hwf : ∀ g, f = some g → WFFilter g) : tinySearch rows types f = select (rows.map Record.round) types f :=
   tinySearch_eq_select rows types f hwf
 
-/-- Hence the two back-ends return the same objects whenever the stored messages survive JSON storage unchanged
-(no tuples; messages with bytes cannot be stored by TinyDB at all — C13-KF1, C13-KF3). -/
-theorem backends_agree (rows : List Record) (types : List Nat) (f : Option Filter)
+/-- **backends_agree_mod_json** — the in-memory and the TinyDB back-end return the same objects, modulo the JSON
+storage mapping (`Record.round`: tuples read back as lists), for EVERY store — in particular stores of real CAM / VAM /
+DENM dictionaries, which all contain ASN.1 CHOICE tuples — every type selection and every well-formed filter whose
+reference values contain no list / tuple (a list/tuple reference value is the known finding C13-KF3,
+`tuple_reference_witness`; messages with bytes cannot be stored by TinyDB at all, C13-KF1). -/
+theorem backends_agree_mod_json (rows : List Record) (types : List Nat) (f : Option Filter)
+    (hwf : ∀ g, f = some g → WFFilter g) (href : ∀ g, f = some g → refsNoSeq g) :
+    tinySearch rows types f = (dictSearch rows types f).map Record.round := by
+  rw [tiny_backend_exact rows types f hwf, dict_backend_exact rows types f hwf, select_round rows types f href]
+
+/-- the same for the whole request path (selection, then ordering of what each back-end holds) when no order is
+requested; with an order both back-ends run the same `order_search_results` on their selections -/
+theorem backends_agree_unordered (rows : List Record) (q : Request) (ho : q.order = none)
+    (hwf : ∀ g, q.filter = some g → WFFilter g) (href : ∀ g, q.filter = some g → refsNoSeq g) :
+    serviceQueryTiny rows q = (serviceQuery rows q).map (·.map Record.round) := by
+  unfold serviceQueryTiny serviceQuery
+  rw [ho, backends_agree_mod_json rows q.types q.filter hwf href]
+  rfl
+
+/-- corollary (stores without tuples survive JSON storage unchanged): literally the same objects -/
+theorem backends_agree_json_stable (rows : List Record) (types : List Nat) (f : Option Filter)
     (hwf : ∀ g, f = some g → WFFilter g) (hst : ∀ r ∈ rows, noTuple r.obj = true) :
     tinySearch rows types f = dictSearch rows types f := by
   rw [tiny_backend_exact rows types f hwf, dict_backend_exact rows types f hwf, round_id_of_stable rows hst]
@@ -40,24 +58,134 @@ theorem missing_attribute_not_matching (s : Stmt) (obj : JVal) (h : lookupPath o
 /-- every returned object is of a requested type and satisfies the filter; every such stored object is returned -/
 theorem result_is_exactly_the_matching (rows : List Record) (types : List Nat) (f : Filter) (hwf : WFFilter f)
     (r : Record) :
-    r ∈ dictSearch rows types (some f) ↔ r ∈ rows ∧ typeSelected types r = true ∧ matchesFilter f r.obj = true := by
+    r ∈ dictSearch rows types (some f) ↔ r ∈ rows ∧ ofRequestedType types r = true ∧ matchesFilter f r.obj = true := by
   rw [dict_backend_exact rows types (some f) (by intro g hg; cases hg; exact hwf)]
   simp [select, selected, List.mem_filter]
 
+/-! ## what the eight operators mean (clause "comparisons ==, !=, <, <=, >, >=, like, notlike")
+
+`Spec.opHolds` is defined in Query.lean without reference to the implementation model; the theorems below spell its
+meaning out on the scalar classes, and `dict_backend_exact` / `tiny_backend_exact` (through `opHolds_agrees`) say that
+both back-ends compute exactly it.  An operator-table mix-up in the model of the code breaks those theorems. -/
+
+/-- numbers: the six comparisons are the integer relations -/
+theorem operators_on_numbers (a b : Int) :
+    opHolds .eq (.int a) (.int b) = decide (a = b) ∧ opHolds .ne (.int a) (.int b) = decide (a ≠ b) ∧
+    opHolds .lt (.int a) (.int b) = decide (a < b) ∧ opHolds .le (.int a) (.int b) = decide (a ≤ b) ∧
+    opHolds .gt (.int a) (.int b) = decide (a > b) ∧ opHolds .ge (.int a) (.int b) = decide (a ≥ b) := by
+  refine ⟨?_, ?_, ?_, ?_, ?_, ?_⟩
+  · simp [opHolds, scalar?, sHolds, sEq]
+  · simp [opHolds, scalar?, sHolds, sEq]
+  · simp [opHolds, scalar?, sHolds, sLt]
+  · by_cases h : b < a
+    · have : ¬ a ≤ b := by omega
+      simp [opHolds, scalar?, sHolds, sLt, h, this]
+    · have : a ≤ b := by omega
+      simp [opHolds, scalar?, sHolds, sLt, h, this]
+  · simp [opHolds, scalar?, sHolds, sLt]
+  · by_cases h : a < b
+    · have : ¬ b ≤ a := by omega
+      simp [opHolds, scalar?, sHolds, sLt, h, this]
+    · have : b ≤ a := by omega
+      simp [opHolds, scalar?, sHolds, sLt, h, this]
+
+/-- texts: equality, the lexicographic order of strings, and `like` = "the reference text occurs in the value" -/
+theorem operators_on_texts (s t : String) :
+    opHolds .eq (.str s) (.str t) = decide (s = t) ∧ opHolds .ne (.str s) (.str t) = decide (s ≠ t) ∧
+    opHolds .lt (.str s) (.str t) = decide (s < t) ∧ opHolds .le (.str s) (.str t) = decide (s ≤ t) ∧
+    opHolds .gt (.str s) (.str t) = decide (t < s) ∧ opHolds .ge (.str s) (.str t) = decide (t ≤ s) ∧
+    (opHolds .like (.str s) (.str t) = true ↔ t.toList <:+: s.toList) ∧
+    (opHolds .notlike (.str s) (.str t) = true ↔ ¬ t.toList <:+: s.toList) := by
+  have hp : pyStr (JVal.str t) = t := rfl
+  refine ⟨?_, ?_, ?_, ?_, ?_, ?_, ?_, ?_⟩
+  · simp [opHolds, scalar?, sHolds, sEq]
+  · simp [opHolds, scalar?, sHolds, sEq]
+  · simp [opHolds, scalar?, sHolds, sLt]
+  · by_cases h : t < s
+    · have : ¬ s ≤ t := String.not_le.mpr h
+      simp [opHolds, scalar?, sHolds, sLt, h, this]
+    · have : s ≤ t := String.not_lt.mp h
+      simp [opHolds, scalar?, sHolds, sLt, h, this]
+  · simp [opHolds, scalar?, sHolds, sLt]
+  · by_cases h : s < t
+    · have : ¬ t ≤ s := String.not_le.mpr h
+      simp [opHolds, scalar?, sHolds, sLt, h, this]
+    · have : t ≤ s := String.not_lt.mp h
+      simp [opHolds, scalar?, sHolds, sLt, h, this]
+  · simp only [opHolds, scalar?, sHolds, occursIn, hp]; simp
+  · simp only [opHolds, scalar?, sHolds, occursIn, hp]; simp
+
+/-- reference values of non-matching type: a number and a text are never equal, never ordered, and a number
+contains nothing -/
+theorem operators_across_types (a : Int) (t : String) :
+    opHolds .eq (.int a) (.str t) = false ∧ opHolds .ne (.int a) (.str t) = true ∧
+    opHolds .lt (.int a) (.str t) = false ∧ opHolds .le (.int a) (.str t) = false ∧
+    opHolds .gt (.int a) (.str t) = false ∧ opHolds .ge (.int a) (.str t) = false ∧
+    opHolds .like (.int a) (.str t) = false ∧ opHolds .notlike (.int a) (.str t) = true ∧
+    opHolds .eq (.str t) (.int a) = false ∧ opHolds .lt (.str t) (.int a) = false ∧ opHolds .ge (.str t) (.int a) = false := by
+  simp [opHolds, scalar?, sHolds, sEq, sLt]
+
+/-- the implementation model's operator table (`OPERATOR_MAPPING` applied to Python values) computes the
+specification's comparisons, for all values -/
+theorem operator_table_meets_spec (op : CmpOp) (v ref : JVal) :
+    (match evalOp op v ref with | .ok b => b | .error _ => false) = opHolds op v ref :=
+  (opHolds_agrees op v ref).symm
+
 /-! ## ordering -/
 
-/-- With order attributes that have integer values `κ` on the selected objects, the answer of the whole request path
+/-- **query_exact**: when every order attribute has, on the selected objects, values of ONE comparable class — so that
+Python's `<` between any two of them is defined and is represented by an integer scale `κ` (`Scaled`; scales exist for
+integer-valued and for text-valued attributes: `query_exact_int_or_text`) — the answer of the whole request path
 (`LDMService.query`) is the specification's: the selection, stably sorted by the order attributes, each in its own
-direction, most significant first. -/
+direction, most significant first.  (An order attribute missing / of mixed type in the selection is C13-KF2,
+`order_missing_attribute_witness`; the legacy bare-name lookup is covered as far as it yields such values.) -/
 theorem query_exact (κ : OrderKey → Record → Int) (rows : List Record) (q : Request)
     (hwf : ∀ g, q.filter = some g → WFFilter g)
-    (hk : ∀ ks, q.order = some ks → ∀ r ∈ select rows q.types q.filter, ∀ k ∈ ks, orderKeyOf r k = .ok (.int (κ k r))) :
+    (hk : ∀ ks, q.order = some ks → Scaled κ ks (select rows q.types q.filter)) :
     serviceQuery rows q = .ok (query κ rows q.types q.filter q.order) := by
   unfold serviceQuery query
   rw [dict_backend_exact rows q.types q.filter hwf]
   cases ho : q.order with
   | none => rfl
-  | some ks => exact orderResults_eq κ ks _ (hk ks ho)
+  | some ks => exact orderResults_scale κ ks _ (hk ks ho)
+
+/-- instance: integer-valued order attributes, the scale is the value itself -/
+theorem query_exact_int (κ : OrderKey → Record → Int) (rows : List Record) (q : Request)
+    (hwf : ∀ g, q.filter = some g → WFFilter g)
+    (hk : ∀ ks, q.order = some ks → ∀ r ∈ select rows q.types q.filter, ∀ k ∈ ks, orderKeyOf r k = .ok (.int (κ k r))) :
+    serviceQuery rows q = .ok (query κ rows q.types q.filter q.order) :=
+  query_exact κ rows q hwf (fun ks ho k hkk =>
+    ⟨fun r => .int (κ k r), fun r hr => hk ks ho r hr k hkk, scale_int _ (κ k)⟩)
+
+/-- instance: every order attribute is integer-valued or text-valued on the selection (the two classes the
+attributes of CAM / DENM / VAM dictionaries have, e.g. `stationId` / `vehicleRole`): there is a scale — the value for
+integers, the rank among the selected objects' texts for texts, which orders them exactly as the strings are ordered
+(`rank_lt_iff`) — and the answer is the specification's for it. -/
+theorem query_exact_int_or_text (rows : List Record) (q : Request) (ks : List OrderKey) (ho : q.order = some ks)
+    (hwf : ∀ g, q.filter = some g → WFFilter g)
+    (hk : ∀ k ∈ ks, (∃ g : Record → Int, ∀ r ∈ select rows q.types q.filter, orderKeyOf r k = .ok (.int (g r))) ∨
+                    (∃ σ : Record → String, ∀ r ∈ select rows q.types q.filter, orderKeyOf r k = .ok (.str (σ r)))) :
+    ∃ κ : OrderKey → Record → Int, Scaled κ ks (select rows q.types q.filter) ∧
+      serviceQuery rows q = .ok (query κ rows q.types q.filter q.order) := by
+  classical
+  let sel := select rows q.types q.filter
+  let κ : OrderKey → Record → Int := fun k =>
+    if h : ∃ f : Record → Int, ∃ v : Record → JVal, (∀ r ∈ sel, orderKeyOf r k = .ok (v r)) ∧ Scale sel v f
+    then Classical.choose h else fun _ => 0
+  have hsc : Scaled κ ks sel := by
+    intro k hkk
+    have hex : ∃ f : Record → Int, ∃ v : Record → JVal, (∀ r ∈ sel, orderKeyOf r k = .ok (v r)) ∧ Scale sel v f := by
+      rcases hk k hkk with ⟨g, hg⟩ | ⟨σ, hσ⟩
+      · exact ⟨g, fun r => .int (g r), hg, scale_int _ g⟩
+      · exact ⟨_, fun r => .str (σ r), hσ, scale_str sel σ⟩
+    have : κ k = Classical.choose hex := by simp only [κ, dif_pos hex]
+    rw [this]
+    exact Classical.choose_spec hex
+  refine ⟨κ, hsc, query_exact κ rows q hwf (fun ks' ho' => ?_)⟩
+  rw [ho] at ho'
+  injection ho' with ho'
+  rw [← ho']
+  exact hsc
 
 /-- **order_sorted**: the stable sort of the specification is a permutation of the selection, sorted with respect
 to the lexicographic order of the keys with their directions, and stable: any already sorted sub-sequence of the
@@ -69,11 +197,6 @@ theorem order_sorted {α : Type} (fs : List (α → Int)) (l : List α) :
   rw [stableSort_eq_mergeSort _ (lexLe_trans fs) (lexLe_total fs)]
   exact ⟨List.mergeSort_perm l _, List.pairwise_mergeSort (lexLe_trans fs) (lexLe_total fs) l,
     fun c hc hs => List.sublist_mergeSort (lexLe_trans fs) (lexLe_total fs) hc hs⟩
-
-/-- a descending key orders by the negated value, an ascending one by the value: per-key direction -/
-theorem effKey_direction (κ : OrderKey → Record → Int) (a : List String) (r : Record) :
-    effKey κ { attr := a, dir := .asc } r = κ { attr := a, dir := .asc } r ∧
-    effKey κ { attr := a, dir := .desc } r = - κ { attr := a, dir := .desc } r := ⟨rfl, rfl⟩
 
 /-! ## witnesses: the defects repaired (F1, F3) and the known findings (KF2, KF3) -/
 
@@ -112,10 +235,28 @@ def posFilter : Filter :=
   { s1 := { attr := ["poi", "pos"], op := .eq, ref := .tuple (.cons (.int 1) (.cons (.int 2) .nil)) }, lop := none, s2 := none }
 
 /-- C13-KF3: a tuple reference value selects the stored tuple on the dictionary back-end only
-(TinyDB holds a list), so `backends_agree` needs its JSON-stability hypothesis -/
+(TinyDB holds a list), so `backends_agree_mod_json` needs its hypothesis on the reference values -/
 theorem tuple_reference_witness :
     dictSearch [poiRec] [3] (some posFilter) = [poiRec] ∧ tinySearch [poiRec] [3] (some posFilter) = [] := by
   decide
+
+def camChoice (sid speed : Int) : JVal :=
+  .dict (.cons "header" (.dict (.cons "stationId" (.int sid) .nil))
+    (.cons "cam" (.dict (.cons "camParameters" (.dict (.cons "highFrequencyContainer"
+      (.tuple (.cons (.str "basicVehicleContainerHighFrequency") (.cons (.dict (.cons "speedValue" (.int speed) .nil)) .nil))) .nil)) .nil)) .nil))
+def camRec (sid speed : Int) : Record := { appId := 2, timestamp := 0, loc := loc0, obj := camChoice sid speed, validity := 1 }
+def sidFilter : Filter := { s1 := { attr := ["header", "stationId"], op := .ne, ref := .int 1 }, lop := some .and,
+                            s2 := some { attr := ["cam", "camParameters", "highFrequencyContainer"], op := .ne, ref := .null } }
+
+/-- non-vacuity of `backends_agree_mod_json`: a store of CAMs with a CHOICE tuple (as every decoded CAM has) — the
+hypotheses hold, the TinyDB answer is the JSON image (tuple → list) of the dictionary answer and differs from it -/
+example : refsNoSeq sidFilter ∧ WFFilter sidFilter ∧
+    noTuple (camRec 2 5).obj = false ∧
+    dictSearch [camRec 1 3, camRec 2 5] [2] (some sidFilter) = [camRec 2 5] ∧
+    tinySearch [camRec 1 3, camRec 2 5] [2] (some sidFilter) = [(camRec 2 5).round] ∧
+    (camRec 2 5).round ≠ camRec 2 5 := by
+  refine ⟨⟨by decide, ?_⟩, by intro _; rfl, by decide, by decide, by decide, by decide⟩
+  intro s2 h; cases h; decide
 
 /-- a second statement without a joining operator is read as "or" by the dictionary back-end and as "and" by
 TinyDB: such filters are outside the property (`WFFilter`) -/
@@ -130,5 +271,29 @@ example : serviceQuery [rec "cam" 2 5, rec "vam" 7 1, rec "cam" 1 5, rec "cam" 1
     { app := 2, types := [2, 16], prio := none, orderBad := false, order := some byStationThenGdtDesc,
       filterBad := false, filter := some gdtFilter } = .ok [rec "cam" 1 9, rec "cam" 1 5, rec "cam" 2 5] := by
   decide
+
+def camRole (role : String) : Record :=
+  { appId := 2, timestamp := 0, loc := loc0, validity := 1,
+    obj := .dict (.cons "cam" (.dict (.cons "vehicleRole" (.str role) .nil)) .nil) }
+def roleKey : OrderKey := { attr := ["cam", "vehicleRole"], dir := .desc }
+def roleOf (r : Record) : String :=
+  match orderKeyOf r roleKey with
+  | .ok (.str s) => s
+  | _ => ""
+
+/-- non-vacuity of `query_exact` for a TEXT-valued order attribute: the keys have a scale (the rank), and the code's
+descending sort puts "publicTransport" before "emergency" before "default" -/
+example : Scaled (fun _ r => rankIn ([camRole "default", camRole "publicTransport", camRole "emergency"].map roleOf) (roleOf r))
+      [roleKey] [camRole "default", camRole "publicTransport", camRole "emergency"] ∧
+    orderResults [camRole "default", camRole "publicTransport", camRole "emergency"] [roleKey]
+      = .ok [camRole "publicTransport", camRole "emergency", camRole "default"] := by
+  refine ⟨?_, by decide⟩
+  intro k hk
+  simp only [List.mem_singleton] at hk
+  subst hk
+  refine ⟨fun r => .str (roleOf r), ?_, scale_str _ roleOf⟩
+  intro r hr
+  simp only [List.mem_cons, List.mem_nil_iff, or_false] at hr
+  rcases hr with h | h | h <;> subst h <;> decide
 
 end Props.C13
